@@ -37,6 +37,9 @@ func argDomain(t types.Type, tag string) []sv {
 		case u.Info()&types.IsInteger != 0:
 			switch u.Kind() {
 			case types.Uint8, types.Int8:
+				if thoroughMode {
+					return allBytes()
+				}
 				return ints(0, 1, 2, 3, 4, 5, 127, 128, 254, 255)
 			case types.Uint16:
 				return ints(0, 1, 255, 256, 65535)
